@@ -146,12 +146,24 @@ Section WithChunks.
         end
     end.
 
+  (* expire...TokenChunks: consecutive chunk cookies PRESENT from index 0, decodable or not
+     (the walk stops only where no cookie exists) *)
+  Fixpoint present_chunks (mk : nat -> cname) (j : jar) (i fuel : nat) : nat :=
+    match fuel with
+    | O => O
+    | S fuel' =>
+        match jar_get (mk i) j with
+        | Some _ => S (present_chunks mk j (S i) fuel')
+        | None => O
+        end
+    end.
+
   (* ---------------------------------------------------------------- SessionData *)
 
   Record sdata := mkSd {
     s_main : payload; s_acc : payload; s_ref : payload;
     s_achunks : list payload; s_rchunks : list payload;   (* accessTokenChunks / refreshTokenChunks, index order *)
-    s_jar_a : nat; s_jar_r : nat;     (* consecutive decodable chunk cookies in the request: what expire...Chunks(nil) walks *)
+    s_jar_a : nat; s_jar_r : nat;     (* consecutive chunk cookies present in the request (decodable or not): what expire...Chunks(nil) walks *)
     s_marked_a : bool; s_marked_r : bool;   (* staleChunks holds the request's old chunk cookies *)
     s_live : bool;                    (* sd.request != nil *)
   }.
@@ -174,9 +186,11 @@ Section WithChunks.
     let ref := fst (get_session k CRef j) in
     let ac := load_chunks k CAccChunk j 0 (length j) in
     let rc := load_chunks k CRefChunk j 0 (length j) in
+    let na := present_chunks CAccChunk j 0 (length j) in
+    let nr := present_chunks CRefChunk j 0 (length j) in
     if session_too_old now main
-    then mkSd [] [] [] (empty_payloads ac) (empty_payloads rc) (length ac) (length rc) false false true
-    else mkSd main acc ref ac rc (length ac) (length rc) false false true.
+    then mkSd [] [] [] (empty_payloads ac) (empty_payloads rc) na nr false false true
+    else mkSd main acc ref ac rc na nr false false true.
 
   (* GetAuthenticated *)
   Definition authenticated (now : time) (sd : sdata) : bool :=
